@@ -1,4 +1,6 @@
 //! C08 — position hash depends on, and separates, everything rule-relevant (DESIGN §4.4).
+//! Since the repair of the hash (it now asks the pawn-attack table whether an en-passant capture is
+//! available) the harnesses replace the table lookups by geometry like every other check (C09).
 
 use crate::geo::*;
 use crate::rules::*;
@@ -78,7 +80,7 @@ fn seeded_hasher(salt: u64) -> ZobristHasher {
 
 // ---- C08.a equality -------------------------------------------------------------------------------
 
-proof! {
+proof_geo! {
     fn equal_positions_hash_equal() {
         // seeded key table (an arbitrary symbolic table does not fit: 1026 symbolic keys behind symbolic
         // indices exhaust 12 GB in the propositional reduction); other tables by varying VERIF_SEED
@@ -102,7 +104,7 @@ proof! {
 // A position reached by play and the same position set up from scratch (with other move counters)
 // hash equal: real successor function twice (white knight move, black king step), seeded key table —
 // the all-tables claim is carried by `equal_positions_hash_equal`.
-proof! {
+proof_geo! {
     fn reached_and_constructed_hash_equal() {
         let hasher = seeded_hasher(0);
         let sqs: [u8; 5] = kani::any();
@@ -163,7 +165,7 @@ fn must_differ(tag: &str, p: &Pos, q: &Pos) {
     }
 }
 
-proof! {
+proof_geo! {
     fn separates_side_to_move() {
         let p = family(true, &[(0, 5), (1, 2), (1, 1)], false, false, "c08 separates_side_to_move");
         let mut q = p;
@@ -173,7 +175,7 @@ proof! {
     }
 }
 
-proof! {
+proof_geo! {
     fn separates_castling_rights() {
         let wtm: bool = kani::any();
         let p = family(wtm, &[(0, 4), (0, 4), (1, 4), (1, 4)], true, false, "c08 separates_castling_rights");
@@ -186,7 +188,7 @@ proof! {
     }
 }
 
-proof! {
+proof_geo! {
     fn separates_en_passant_availability() {
         let wtm: bool = kani::any();
         let p = family(wtm, &[(0, 1), (1, 1), (0, 2)], false, true, "c08 separates_en_passant_availability");
@@ -213,19 +215,19 @@ fn placement(wtm: bool, men: &[(usize, u8)], tag: &str) {
     kani::cover!(p.kind_at(p.us(), m.from) == 6, "king move");
 }
 
-proof! {
+proof_geo! {
     fn separates_placement_white() {
         placement(true, &[(0, 1), (0, 2), (1, 4)], "c08 separates_placement_white");
     }
 }
 
-proof! {
+proof_geo! {
     fn separates_placement_black() {
         placement(false, &[(1, 1), (1, 3), (0, 5)], "c08 separates_placement_black");
     }
 }
 
-proof! {
+proof_geo! {
     fn reach_witness() {
         let hasher = seeded_hasher(0);
         let p = family(true, &[(0, 5)], false, false, "c08 reach");
